@@ -342,6 +342,8 @@ func cmdCheck(argv []string) int {
 	var perRun []map[string]any
 	var allViol []*Violation
 	violRun := map[*Violation]RunSpec{}
+	var nativeViol []*Violation
+	var violRunExtra []RunSpec
 	validated, validateFail := 0, 0
 	var validateMsgs []string
 	inconclusive := 0
@@ -424,6 +426,13 @@ func cmdCheck(argv []string) int {
 					}
 				}
 			}
+			if !ok && spec.Threads && nr.Outcome == "assert" {
+				// purity is this property's subject: a native run of the harness that fails an assertion
+				// the engine's (deterministic) execution passes is itself a demonstration of a violation
+				nativeViol = append(nativeViol, &Violation{Kind: "assert", Msg: nr.Msg, Inputs: ins, Where: "native run of " + rs.Harness})
+				violRunExtra = append(violRunExtra, rs)
+				continue
+			}
 			if ok {
 				validated++
 			} else {
@@ -435,6 +444,10 @@ func cmdCheck(argv []string) int {
 		}
 	}
 
+	for i, v := range nativeViol {
+		violRun[v] = violRunExtra[i]
+		allViol = append(allViol, v)
+	}
 	// ---- classify violations ------------------------------------------------
 	findings := loadFindings(filepath.Join(verifDir, "known_findings.json"))
 	seen := map[string]bool{}
@@ -483,6 +496,14 @@ func cmdCheck(argv []string) int {
 		switch v.Kind {
 		case "assert":
 			reproduced = nr.Outcome == "assert" && nr.Msg == v.Msg
+			if spec.Threads && !strings.HasPrefix(v.Msg, "data race") {
+				// results that depend on map iteration order or history: natively the order is the
+				// runtime's; any failed purity assertion in a few attempts confirms
+				for try := 0; try < 8 && nr.Outcome != "assert"; try++ {
+					nr = runNative(replayBin, rf, buildDir, timeout)
+				}
+				reproduced = nr.Outcome == "assert"
+			}
 			if strings.HasPrefix(v.Msg, "data race") {
 				// natively the schedule is the Go scheduler's: the race detector confirms (several attempts)
 				for try := 0; try < 5 && nr.Outcome != "race"; try++ {
